@@ -9,3 +9,4 @@ open Pcore.Lat
 #print axioms C02_optional
 #print axioms C02_notundef
 #print axioms C02_type_exact
+#print axioms C02_iterator_empty
